@@ -284,6 +284,17 @@ def cases(cfg, g, US, UV):
                     yield "attack", ("AP", (("a", b), ("b", a), ("c", c)))
 
 
+def _stale_digests(x):
+    if isinstance(x, dict):
+        if "content_id" in x:
+            x["content_id"] = "0badc0de"
+        for v in x.values():
+            _stale_digests(v)
+    elif isinstance(x, (list, tuple)):
+        for v in x:
+            _stale_digests(v)
+
+
 def _universe_for(d, US, UV, AP_U):
     return AP_U if d[0] == "AP" else UV
 
@@ -348,6 +359,31 @@ def run_shard(cfg):
                 rec.count("evaluations")
                 if other.content_id != cid or not node.is_equal(other):
                     rec.violation("C01|invariance|non-comparable", {"a": fd}, "a non-comparable property influences content_id / is_equal")
+            # a node built by reading a payload whose recorded digests are stale (an edited or foreign document): its
+            # content_id is a function of its content, not of what the document claims
+            rec.count("evaluations")
+            try:
+                payload = node.as_dict()
+            except Exception:  # noqa: BLE001
+                payload = None
+                rec.count("not_serializable")
+            if payload is not None:
+                _stale_digests(payload)
+                node.detach()
+                try:
+                    back = g["ASTNode"].as_obj(payload)
+                except Exception:  # noqa: BLE001
+                    back = None
+                    rec.count("not_deserializable")
+                if back is not None and back is not node:
+                    if back.content_id != cid or not node.is_equal(back) or not back.is_equal(node):
+                        rec.violation("C01|invariance|deserialized-with-stale-digests", {"a": fd, "variant": "deserialized"},
+                                      "a node read from a payload with stale content_id entries does not get the content_id of its content", expected=cid, observed=back.content_id)
+                    inner = [i.node.content_id for i in back.dfs()]
+                    if inner != [i.node.content_id for i in node.dfs()]:
+                        rec.violation("C01|invariance|deserialized-with-stale-digests", {"a": fd, "variant": "deserialized"},
+                                      "descendants read from a payload with stale content_id entries carry other content_ids than the originals")
+                del back
         if keep:
             held.append((d, node, cid, fd))
         if not node.is_equal(node) or node.is_equal(d) or node.is_equal(None) or node.is_equal(cid):
